@@ -3,13 +3,14 @@ package simgen
 import (
 	"encoding/binary"
 	"fmt"
+	"math"
 
 	"seehuhn.de/go/sfnt/zzverif/tape"
 )
 
 // FaultKinds lists the stored-data fault catalogue.
 var FaultKinds = []string{"truncate", "bitflip", "byte-set", "field16-set", "field32-set", "zero-sector", "dup-sector",
-	"swap-sectors", "torn-overwrite", "garbage-tail", "random-sector", "field16-nudge"}
+	"swap-sectors", "torn-overwrite", "garbage-tail", "random-sector", "field16-nudge", "byte-nudge", "length32", "length16"}
 
 // Fault describes one applied stored-data fault.
 type Fault struct {
@@ -25,7 +26,7 @@ func (f Fault) String() string {
 
 var sectorSizes = []int{4, 16, 64, 512}
 var field16Values = []uint16{0, 1, 2, 0x7FFF, 0x8000, 0xFFFF, 0xFFFE, 0x0100}
-var field32Values = []uint32{0, 1, 0x7FFFFFFF, 0x80000000, 0xFFFFFFFF, 0x00010000, 0x0000FFFF}
+var field32Values = []uint32{0, 1, 0x7FFFFFFF, 0x80000000, 0xFFFFFFFF, 0x00010000, 0x0000FFFF, 0xFFFFFFF0, 0xFFFFFFFE}
 var byteValues = []byte{0x00, 0xFF, 0x7F, 0x80, 0x01}
 
 // Corrupt applies one tape-chosen fault to a copy of data, inside the region
@@ -60,7 +61,7 @@ func Corrupt(t *tape.Tape, data []byte, lo, hi int, other []byte) ([]byte, Fault
 		}
 		return p
 	}
-	kind := t.Weighted(2, 6, 4, 8, 4, 2, 2, 2, 2, 1, 2, 6)
+	kind := t.Weighted(2, 6, 4, 8, 4, 2, 2, 2, 2, 1, 2, 6, 5, 5, 5)
 	switch kind {
 	case 0:
 		k := pos(1)
@@ -144,6 +145,53 @@ func Corrupt(t *tape.Tape, data []byte, lo, hi int, other []byte) ([]byte, Fault
 		e := min(p+ss, len(out))
 		copy(out[p:e], t.Bytes(e-p))
 		return out, Fault{Kind: "random-sector", Off: p, Len: e - p}
+	case 13, 14:
+		// A stored length, count or offset goes wrong: pick a word that
+		// looks like one (its value is positive and not larger than the
+		// data) and replace it by an extreme or slightly wrong value.
+		w := 4
+		if kind == 14 {
+			w = 2
+		}
+		var cands []int
+		for p := lo - lo%2; p+w <= hi && p+w <= len(out); p += 2 {
+			var v uint64
+			if w == 4 {
+				v = uint64(binary.BigEndian.Uint32(out[p:]))
+			} else {
+				v = uint64(binary.BigEndian.Uint16(out[p:]))
+			}
+			if v > 0 && v <= uint64(len(out)) {
+				cands = append(cands, p)
+			}
+		}
+		if len(cands) == 0 {
+			return out, Fault{Kind: "none"}
+		}
+		// lengths and counts sit in headers: choose the candidate with a
+		// log-uniform rank, so that early words are hit much more often
+		u := float64(t.Draw(1<<20)) / float64(1<<20)
+		rank := int(math.Exp(u*math.Log(float64(len(cands)+1)))) - 1
+		if rank >= len(cands) {
+			rank = len(cands) - 1
+		}
+		p := cands[rank]
+		if w == 4 {
+			v := binary.BigEndian.Uint32(out[p:])
+			nv := []uint32{0xFFFFFFFF, 0xFFFFFFFF - uint32(t.Draw(64)), 0x7FFFFFFF, uint32(len(out)), uint32(len(out)) + 1, v + uint32(len(out)), v + 1, v - 1, 0x80000000, 0xFFFF}[t.Draw(10)]
+			binary.BigEndian.PutUint32(out[p:], nv)
+			return out, Fault{Kind: "length32", Off: p, Len: 4, Note: fmt.Sprintf("%#x->%#x", v, nv)}
+		}
+		v := binary.BigEndian.Uint16(out[p:])
+		nv := []uint16{0xFFFF, 0xFFFF - uint16(t.Draw(16)), 0x7FFF, uint16(len(out)), uint16(len(out)) + 1, v + 1, v - 1, 0x8000, v * 2}[t.Draw(9)]
+		binary.BigEndian.PutUint16(out[p:], nv)
+		return out, Fault{Kind: "length16", Off: p, Len: 2, Note: fmt.Sprintf("%#x->%#x", v, nv)}
+	case 12:
+		p := pos(1)
+		v := out[p]
+		d := []byte{1, 0xFF, 2, 0xFE}[t.Draw(4)]
+		out[p] = v + d
+		return out, Fault{Kind: "byte-nudge", Off: p, Len: 1, Note: fmt.Sprintf("%#x->%#x", v, v+d)}
 	default:
 		p := pos(2)
 		if p+2 > len(out) {
